@@ -1,14 +1,47 @@
 (* C13 — diff is total on untrusted page-range input (functional half; the native-stack half is the known
    finding F2, see DESIGN.md). *)
-From MST Require Import Base TreeM Diff Intervals DiffWalk Statements DiffTotal.
+From MST Require Import Base TreeM Diff Intervals DiffWalk DiffTotal.
 
 Theorem C13_total :
   forall (digest : Type) (deqb : digest -> digest -> bool) (local peer : list (prange digest)),
   Forall (fun r => ps digest r <= pe digest r) local ->
   Forall (fun r => ps digest r <= pe digest r) peer ->
   exists rs, diff digest deqb local peer = Ok rs /\
-    Forall (fun r => ds r <= de r) rs /\ strictly_ascending rs /\
+    Forall (fun r => ds r <= de r) rs /\ strict_asc rs /\
     Forall (fun r => In (ds r) (bounds_of digest (local ++ peer)) /\
                      In (de r) (bounds_of digest (local ++ peer))) rs.
-Proof. intros digest deqb. exact (DiffTotal.C13_total_proved digest deqb unit). Qed.
+Proof. intros digest deqb. exact (DiffTotal.C13_total_proved digest deqb). Qed.
 Print Assumptions C13_total.
+
+(* ---- the stack clause ---- *)
+From MST Require Import DiffDepth.
+(* [rdepth] is the same walk instrumented with the native recursion depth of the Rust code (two frames per
+   nesting level); it computes exactly [rdiff] *)
+Theorem C13_depth_same_walk :
+  forall (digest : Type) (deqb : digest -> digest -> bool) fuel root last s,
+  rdiff digest deqb fuel root last s =
+  match rdepth digest deqb fuel root last s with Ok (s', _) => Ok s' | Panic w => Panic w | Fuel => Fuel end.
+Proof. exact DiffDepth.rdepth_rdiff. Qed.
+Print Assumptions C13_depth_same_walk.
+(* depth is at most linear in the length of the peer list ... *)
+Theorem C13_depth_le_length :
+  forall (digest : Type) (deqb : digest -> digest -> bool) (local peer : list (prange digest)) d,
+  diff_depth digest deqb local peer = Ok d -> (d <= 1 + 2 * length peer)%nat.
+Proof. exact DiffDepth.diff_depth_le. Qed.
+Print Assumptions C13_depth_le_length.
+(* ... and REFUTED as a bounded quantity: for every n two well-formed lists of n nested ranges (digests
+   differing level by level) drive the recursion 2n-1 frames deep. "Without exhausting the call stack however
+   deeply nested the lists are" is therefore false of the model; replayed on the crate with a 2 MiB stack this
+   is the known finding F2 (DESIGN.md section 1, known_findings.json). *)
+Theorem C13_bounded_stack_refuted :
+  forall (digest : Type) (deqb : digest -> digest -> bool) (hl hp : nat -> digest),
+  (forall i, deqb (hl i) (hp i) = false) ->
+  forall n : nat, (0 < n)%nat ->
+  Forall (fun r => ps digest r <= pe digest r) (chain digest n hl 0) /\
+  Forall (fun r => ps digest r <= pe digest r) (chain digest n hp 0) /\
+  exists d, diff_depth digest deqb (chain digest n hl 0) (chain digest n hp 0) = Ok d /\ (2 * n <= d + 1)%nat.
+Proof.
+  intros digest deqb hl hp Hd n Hn. split; [apply chain_wf|]. split; [apply chain_wf|].
+  exact (DiffDepth.chain_is_deep digest deqb hl hp Hd n Hn).
+Qed.
+Print Assumptions C13_bounded_stack_refuted.
